@@ -105,11 +105,24 @@ def explore(ctx, tier, search=False):
     for di in range(n_ds):
         spec = G.gen_dataset(rng)
         sx = G.ds_sexp(spec)
-        app = BaseHandler(G.build(spec))
+        # every other dataset serves its sequences from a lazy, already range-restricted row stream; the same handler
+        # object answers all 32 requests of the dataset, so a response that depends on earlier requests shows up
+        lazy = False
+        if di % 2 and any(v["k"] == "sq" and v["rows"] for v in spec["vars"]):
+            # "plain" lazy sequences with selections run into the open C04 findings (empty result, column-vs-column);
+            # they are enabled once those are repaired
+            lazy = "ranged" if di % 4 == 3 else False
+        app = BaseHandler(G.build(spec, lazy=lazy))
         app_attr = BaseHandler(attributed(spec))
         das_plain = G.run_request(app_attr, "/d.das", "")
         for ci in range(8):
             q, expected = G.gen_valid_ce(rng, spec)
+            for _ in range(20):
+                if lazy != "ranged" or not any(c in q for c in "&<>=!"):
+                    break
+                q, expected = G.gen_valid_ce(rng, spec)
+            else:
+                q, expected = G.gen_valid_ce(rng, dict(spec, vars=[v for v in spec["vars"] if v["k"] != "sq"]))
             bodies = {ext: G.run_request(app, "/d." + ext, q) for ext in ("dds", "dods", "ascii", "das")}
             tag = judge(ctx, spec, sx, q, expected, bodies)
             hs = "hyperslab" if "[" in q else "plain"
